@@ -17,15 +17,52 @@ theorem C07_creation_flags_refused (env : Env) (emu : Bool) (root : Fd) (path : 
   simp only [this, ↓reduceIte]
   rfl
 
-/-- … and by `open_follow`, whose final component does not go through the resolver (finding F18) -/
+/-- the flags `open_follow` really uses: a trailing slash adds `O_DIRECTORY` -/
+def followFlags (sub : Bytes) (oflags : Nat) : Nat :=
+  if (Path.stripTrailingSlash sub).2 then oflags ||| O_DIRECTORY else oflags
+
+/-- … and by `open_follow`, whose final component does not go through the resolver (finding F18).
+The check is made on the flags that will be used: `O_TMPFILE` contains `O_DIRECTORY`, so the bare
+`__O_TMPFILE` bit plus a trailing slash is a creation request too (finding F21). -/
 theorem C07_creation_flags_refused_open_follow (env : Env) (hd : ProcH) (base : Base) (sub : Bytes)
-    (oflags : Nat) (h : hasAny oflags (O_CREAT ||| O_EXCL) = true ∨ hasAll oflags O_TMPFILE = true) :
+    (oflags : Nat)
+    (h : hasAny (followFlags sub oflags) (O_CREAT ||| O_EXCL) = true ∨ hasAll (followFlags sub oflags) O_TMPFILE = true) :
     openFollowH env hd base sub oflags = Prog.ret (.error .invalidArgument) := by
   unfold openFollowH
-  have : (hasAny oflags (O_CREAT ||| O_EXCL) || hasAll oflags O_TMPFILE) = true := by
+  unfold followFlags at h
+  have : (hasAny (if (Path.stripTrailingSlash sub).2 = true then oflags ||| O_DIRECTORY else oflags) (O_CREAT ||| O_EXCL) ||
+      hasAll (if (Path.stripTrailingSlash sub).2 = true then oflags ||| O_DIRECTORY else oflags) O_TMPFILE) = true := by
     rcases h with h | h <;> simp [h]
   simp only [this, ↓reduceIte]
   rfl
+
+theorem hasAny_or_mono (f d m : Nat) (h : hasAny f m = true) : hasAny (f ||| d) m = true := by
+  simp only [hasAny, ne_eq, decide_eq_true_eq] at h ⊢
+  intro h0
+  apply h
+  apply Nat.eq_of_testBit_eq; intro i
+  have := congrArg (fun x => x.testBit i) h0
+  simp only [Nat.testBit_and, Nat.testBit_or, Nat.zero_testBit] at this ⊢
+  cases hf : f.testBit i <;> cases hm : m.testBit i <;> simp_all
+
+/-- in particular creation bits in the caller's own flag word are refused, whatever the path -/
+theorem C07_creation_flags_refused_open_follow_raw (env : Env) (hd : ProcH) (base : Base) (sub : Bytes)
+    (oflags : Nat) (h : hasAny oflags (O_CREAT ||| O_EXCL) = true ∨ hasAll oflags O_TMPFILE = true) :
+    openFollowH env hd base sub oflags = Prog.ret (.error .invalidArgument) := by
+  apply C07_creation_flags_refused_open_follow
+  unfold followFlags
+  split
+  · rcases h with h | h
+    · exact Or.inl (hasAny_or_mono _ _ _ h)
+    · exact Or.inr (hasAll_or_mono _ _ _ h)
+  · exact h
+
+/-- F21: the bare `__O_TMPFILE` bit with a trailing slash on the path is refused -/
+example (env : Env) (hd : ProcH) :
+    openFollowH env hd .self b!"cwd/" (0o20000000 ||| O_RDWR) = Prog.ret (.error .invalidArgument) := by
+  apply C07_creation_flags_refused_open_follow
+  right
+  decide
 
 /-- `ProcfsHandle::open` forces `O_NOFOLLOW`: one level of it is the same whether or not the
 caller passed the flag -/
